@@ -6,6 +6,7 @@ import re
 import os
 import signal
 import math
+import numbers
 import flowpaths.utils as utils
 import numpy as np
 import warnings
@@ -270,8 +271,8 @@ class SolverWrapper:
         
         # Normalize bounds to per-index arrays when necessary
         def _materialize_bounds(param, default_value, param_name):
-            # scalar
-            if isinstance(param, (int, float)):
+            # scalar (also the scalar types of numpy, which are neither int nor float but are numbers.Real)
+            if isinstance(param, numbers.Real):
                 return [float(param)] * len(indexes)
             # dict mapping index -> value
             if isinstance(param, dict):
